@@ -79,6 +79,14 @@ func (e *SpecEnv) resolveType(s string) types.Type {
 			return b
 		}
 	}
+	// type parameters of a generic instantiation
+	if e.fn != nil && e.fn.TypeParams() != nil && len(e.fn.TypeArgs()) == e.fn.TypeParams().Len() {
+		for i := 0; i < e.fn.TypeParams().Len(); i++ {
+			if e.fn.TypeParams().At(i).Obj().Name() == s {
+				return e.fn.TypeArgs()[i]
+			}
+		}
+	}
 	if s == "ref" {
 		return types.Typ[types.UnsafePointer]
 	}
@@ -207,10 +215,11 @@ func (e *SpecEnv) eval(x Expr, cur, old *State) Val {
 				delete(e.bound, b.Name)
 			}
 		}
+		pats := selectPatterns(body.S, vars)
 		if n.All {
-			return scalar(boolT, Forall(vars, body))
+			return scalar(boolT, Forall(vars, body, pats...))
 		}
-		return scalar(boolT, Exists(vars, body))
+		return scalar(boolT, Exists(vars, body, pats...))
 	}
 	return e.fail("unsupported expression %T", x)
 }
@@ -363,8 +372,11 @@ func (e *SpecEnv) binary(n *EBin, cur, old *State) Val {
 	case "in":
 		k := e.eval(n.X, cur, old)
 		m := e.eval(n.Y, cur, old)
+		if m.Set != nil {
+			return scalar(boolT, Select(m.L[0], k.one()))
+		}
 		if _, ok := m.T.Underlying().(*types.Map); !ok {
-			return e.fail("'in' needs a map on the right")
+			return e.fail("'in' needs a map or a set on the right")
 		}
 		dom, _, _ := e.f.mapComps(m.T)
 		return scalar(boolT, Select(Select(vc.get(cur, dom), m.one()), k.one()))
@@ -472,6 +484,43 @@ func (e *SpecEnv) callExpr(n *ECall, cur, old *State) Val {
 		case "preexisting":
 			v := e.eval(n.Args[0], cur, old)
 			return scalar(boolT, And(Gt(v.L[0], Zero), Lt(v.L[0], e.freshBase())))
+		case "elems", "elemsn":
+			v := e.eval(n.Args[0], cur, old)
+			if _, ok := v.T.Underlying().(*types.Slice); !ok {
+				return e.fail("%s of non-slice", id.Name)
+			}
+			cnt := v.len()
+			if id.Name == "elemsn" {
+				cnt = e.eval(n.Args[1], cur, old).one()
+			}
+			t, es, ok := e.f.elemSet(cur, v, cnt)
+			if !ok {
+				return e.fail("elems: element type of %s has no set view", v.T)
+			}
+			return Val{Set: es, T: elemOf(v.T), L: []Term{t}}
+		case "fieldset", "fieldsetn":
+			v := e.eval(n.Args[0], cur, old)
+			fid, ok := n.Args[1].(*EIdent)
+			if _, isSl := v.T.Underlying().(*types.Slice); !isSl || !ok {
+				return e.fail("fieldset(slice, Field)")
+			}
+			cnt := v.len()
+			if id.Name == "fieldsetn" {
+				cnt = e.eval(n.Args[2], cur, old).one()
+			}
+			t, fs, ok := e.f.fieldSet(cur, v, fid.Name, cnt)
+			if !ok {
+				return e.fail("fieldset: no scalar field %s on elements of %s", fid.Name, v.T)
+			}
+			return Val{Set: fs, T: types.Typ[types.Bool], L: []Term{t}}
+		case "keys":
+			v := e.eval(n.Args[0], cur, old)
+			mt, ok := v.T.Underlying().(*types.Map)
+			if !ok {
+				return e.fail("keys of non-map")
+			}
+			dom, _, _ := e.f.mapComps(v.T)
+			return Val{Set: keySort(mt.Key()), T: mt.Key(), L: []Term{Select(vc.get(cur, dom), v.one())}}
 		case "proj":
 			v := e.eval(n.Args[0], cur, old)
 			tt, ok := v.T.(*types.Tuple)
@@ -586,6 +635,18 @@ func (e *SpecEnv) goCall(fn *ssa.Function, args []Expr, cur, old *State) Val {
 	}
 	if len(vals) != len(fn.Params) {
 		return e.fail("call of %s with %d arguments, want %d", fn.Name(), len(vals), len(fn.Params))
+	}
+	if ext := vc.eng.extFor(fn); ext != nil {
+		vc.usedExt[fn.String()] = true
+		var rt types.Type = fn.Signature.Results()
+		if fn.Signature.Results().Len() == 1 {
+			rt = fn.Signature.Results().At(0).Type()
+		}
+		st := cur.clone()
+		return ext.apply(e.f, st, nil, vals, rt, 0)
+	}
+	if spec := vc.eng.specs.funcSpec(fn); spec != nil && spec.Pure {
+		return ufResult(e.f, fmt.Sprintf("pure|%s|%d", fnDisplayName(fn), 0), vals, fn.Signature.Results().At(0).Type())
 	}
 	if e.f.depth >= maxInlineDepth {
 		return e.fail("spec call depth exceeded")
